@@ -104,11 +104,12 @@ type Manifest struct {
 }
 
 type Upload struct {
-	ID      string
-	Data    []byte
-	Gen     int // bumps when the location changes
-	Patches int
-	cut     bool
+	ID        string
+	Data      []byte
+	Gen       int // bumps when the location changes
+	Patches   int
+	LastChunk int // length of the last accepted PATCH body
+	cut       bool
 }
 
 type Repo struct {
@@ -136,6 +137,7 @@ type Knobs struct {
 	Mount                 int    // 0 granted when source has the blob, 1 declined with 202+Location, 2 unsupported (202 upload as if no mount)
 	AnonymousMount        bool   // grant a mount without "from" when any repository holds the blob
 	ChunkMin              int    // OCI-Chunk-Min-Length announced on upload POST (0: none)
+	ChunkMinEnforce       bool   // a chunk that follows one below the minimum is refused with 400
 	LocAbsolute           bool   // absolute upload Location
 	LocQuery              bool   // Location carries a query string
 	LocChanges            bool   // Location changes on every PATCH
@@ -652,10 +654,12 @@ func (g *Reg) uploads(req *simnet.Request, repo, id string, q url.Values) *simne
 			return r
 		}
 		body := req.Body
-		if g.K.ChunkMin > 0 && len(body) < g.K.ChunkMin {
-			// a chunk below the announced minimum is only acceptable as the last one; the model cannot know
-			// yet, so it accepts (the spec lets the final chunk be short)
+		// a chunk below the announced minimum is only acceptable as the last one; the model cannot know that
+		// when the chunk arrives (the spec lets the final chunk be short), but it knows when another chunk follows
+		if g.K.ChunkMin > 0 && g.K.ChunkMinEnforce && u.LastChunk > 0 && u.LastChunk < g.K.ChunkMin {
+			return resp(400, "SIZE_INVALID")
 		}
+		u.LastChunk = len(body)
 		if g.K.PartialEvery > 0 && g.patchN%g.K.PartialEvery == 0 && len(body) > 1 {
 			body = body[:1+len(body)/2] // accept only part; at least one byte so that the Range reply is unambiguous
 		}
